@@ -193,18 +193,24 @@ pub struct P2Cfg {
     /// second alphabet: IPv6 neighbor discovery, icmp / raw / tcp sockets (instead of DNS,
     /// big datagrams and the 61 s jump)
     pub more: bool,
+    /// third alphabet: device back-pressure (frames pile up in sockets and in the fragmenter)
+    pub throttle: bool,
+    /// fourth alphabet: two DNS queries with staggered starts against a reachable server
+    pub dnsq: bool,
 }
 
 pub fn p2_configs() -> Vec<P2Cfg> {
     vec![
-        P2Cfg { name: "iface", slaac: false, dhcp: false, mtu: 1500, served: false, more: false },
-        P2Cfg { name: "iface-frag", slaac: false, dhcp: false, mtu: 120, served: false, more: false },
-        P2Cfg { name: "iface-dhcp", slaac: false, dhcp: true, mtu: 1500, served: false, more: false },
-        P2Cfg { name: "iface-dhcp-served", slaac: false, dhcp: true, mtu: 1500, served: true, more: false },
-        P2Cfg { name: "iface-more", slaac: false, dhcp: false, mtu: 1500, served: false, more: true },
-        P2Cfg { name: "iface-slaac-more", slaac: true, dhcp: false, mtu: 1500, served: false, more: true },
-        P2Cfg { name: "iface-slaac", slaac: true, dhcp: false, mtu: 1500, served: false, more: false },
-        P2Cfg { name: "iface-slaac-frag", slaac: true, dhcp: false, mtu: 120, served: false, more: false },
+        P2Cfg { name: "iface", slaac: false, dhcp: false, mtu: 1500, served: false, more: false, throttle: false, dnsq: false },
+        P2Cfg { name: "iface-frag", slaac: false, dhcp: false, mtu: 120, served: false, more: false, throttle: false, dnsq: false },
+        P2Cfg { name: "iface-dhcp", slaac: false, dhcp: true, mtu: 1500, served: false, more: false, throttle: false, dnsq: false },
+        P2Cfg { name: "iface-dhcp-served", slaac: false, dhcp: true, mtu: 1500, served: true, more: false, throttle: false, dnsq: false },
+        P2Cfg { name: "iface-more", slaac: false, dhcp: false, mtu: 1500, served: false, more: true, throttle: false, dnsq: false },
+        P2Cfg { name: "iface-slaac-more", slaac: true, dhcp: false, mtu: 1500, served: false, more: true, throttle: false, dnsq: false },
+        P2Cfg { name: "iface-frag-throttle", slaac: false, dhcp: false, mtu: 120, served: false, more: false, throttle: true, dnsq: false },
+        P2Cfg { name: "iface-dns-two-queries", slaac: false, dhcp: false, mtu: 1500, served: false, more: false, throttle: false, dnsq: true },
+        P2Cfg { name: "iface-slaac", slaac: true, dhcp: false, mtu: 1500, served: false, more: false, throttle: false, dnsq: false },
+        P2Cfg { name: "iface-slaac-frag", slaac: true, dhcp: false, mtu: 120, served: false, more: false, throttle: false, dnsq: false },
     ]
 }
 
@@ -217,6 +223,8 @@ pub enum P2Ev {
     UdpToResolved,
     UdpBig,
     DnsQuery,
+    /// a second, different DNS query (two pending queries in one socket, staggered timers)
+    DnsQueryB,
     ArpReplyFromPeer,
     RouterAdvert { lifetime_s: u16, prefix: bool },
     /// UDP datagram to an on-link IPv6 neighbor nobody answers for (neighbor solicitation back-off)
@@ -229,6 +237,14 @@ pub enum P2Ev {
     TcpConnectPeer,
     /// TCP abort
     TcpAbort,
+    /// the device stops accepting frames (transmit() refuses) ...
+    Hold,
+    /// ... and accepts again; nothing is polled by this event, so whatever piled up is still
+    /// pending when the deadline is read and probed
+    Release,
+    /// a 300-octet datagram is queued and polled ONCE on a device that takes a single frame:
+    /// the remaining fragments stay in the interface's fragmenter
+    UdpBigOneFrame,
     /// the DHCP server answers the client's latest message: DISCOVER -> OFFER, REQUEST -> ACK
     /// (lease of `lease_s` seconds, T1/T2 left to the client's defaults)
     DhcpAnswer { lease_s: u32 },
@@ -374,7 +390,30 @@ impl P2 {
                 let s = self.sockets.get_mut::<dns::Socket>(self.dns);
                 let _ = s.start_query(cx, "a.example", smoltcp::wire::DnsQueryType::A);
             }
+            P2Ev::DnsQueryB => {
+                let cx = self.iface.context();
+                let s = self.sockets.get_mut::<dns::Socket>(self.dns);
+                let _ = s.start_query(cx, "b.example", smoltcp::wire::DnsQueryType::A);
+            }
             P2Ev::ArpReplyFromPeer => self.arp_reply_from_peer(),
+            P2Ev::Hold => self.dev.tx_budget = Some(0),
+            P2Ev::Release => {
+                self.dev.tx_budget = None;
+                self.last_poll_quiet = false;
+                return;
+            }
+            P2Ev::UdpBigOneFrame => {
+                let s = self.sockets.get_mut::<udp::Socket>(self.udp);
+                let _ = s.send_slice(&[0x66; 300], (IpAddress::v4(192, 168, 1, 2), 9000));
+                let held = self.dev.tx_budget;
+                if held.is_none() {
+                    self.dev.tx_budget = Some(1);
+                }
+                self.poll();
+                self.dev.tx_budget = held;
+                self.last_poll_quiet = false;
+                return;
+            }
             P2Ev::UdpToUnresolvedV6 => {
                 let s = self.sockets.get_mut::<udp::Socket>(self.udp);
                 let _ = s.send_slice(b"z", (IpAddress::Ipv6(Ipv6Address::new(0xfe80, 0, 0, 0, 0, 0, 0, 0x77)), 9000));
@@ -494,7 +533,11 @@ impl Harness for P2 {
         );
         u.bind(5000).unwrap();
         let udp = sockets.add(u);
-        let dns = sockets.add(dns::Socket::new(&[IpAddress::v4(192, 168, 1, 53)], vec![]));
+        // `dnsq` configurations: the server is off-link, i.e. reached through the default gateway
+        // (the peer, resolvable by ArpReplyFromPeer), so that queries really leave and their
+        // retransmission timers run; elsewhere the server is an on-link host nobody answers for
+        let server = if cfg.dnsq { IpAddress::v4(10, 9, 9, 53) } else { IpAddress::v4(192, 168, 1, 53) };
+        let dns = sockets.add(dns::Socket::new(&[server], vec![]));
         let mut ic = icmp::Socket::new(
             icmp::PacketBuffer::new(vec![icmp::PacketMetadata::EMPTY; 2], vec![0u8; 256]),
             icmp::PacketBuffer::new(vec![icmp::PacketMetadata::EMPTY; 2], vec![0u8; 256]),
@@ -544,6 +587,29 @@ impl Harness for P2 {
             (P2Ev::DnsQuery, 0),
             (P2Ev::ArpReplyFromPeer, 0),
         ];
+        if self.cfg.throttle {
+            v = vec![
+                (P2Ev::Tick, 0),
+                (P2Ev::Plus(500_000), 0),
+                (P2Ev::UdpToResolved, 0),
+                (P2Ev::UdpBig, 0),
+                (P2Ev::UdpBigOneFrame, 0),
+                (P2Ev::RawToPeer, 0),
+                (P2Ev::ArpReplyFromPeer, 0),
+                (if self.dev.tx_budget.is_none() { P2Ev::Hold } else { P2Ev::Release }, 0),
+            ];
+        }
+        if self.cfg.dnsq {
+            v = vec![
+                (P2Ev::Tick, 0),
+                (P2Ev::Plus(500_000), 0),
+                (P2Ev::Plus(61_000_000), 0),
+                (P2Ev::DnsQuery, 0),
+                (P2Ev::DnsQueryB, 0),
+                (P2Ev::ArpReplyFromPeer, 0),
+                (P2Ev::UdpToResolved, 0),
+            ];
+        }
         if self.cfg.more {
             v = vec![
                 (P2Ev::Tick, 0),
@@ -571,8 +637,8 @@ impl Harness for P2 {
         let t = self.now;
         let d = self.poll_at();
         let ctx = format!("cfg {} after {:?}", self.cfg.name, ev);
-        // (B)
-        if self.last_poll_quiet {
+        // (B) only on a device that accepts frames (the statement's proviso)
+        if self.last_poll_quiet && self.dev.tx_budget.is_none() {
             if let Some(dd) = d {
                 if dd <= t {
                     let cause = self.cause();
@@ -604,7 +670,7 @@ impl Harness for P2 {
         }
     }
     fn fingerprint(&self) -> u128 {
-        fp128(&format!("{:?}|{}|{}|{:?}", self.sockets, self.iface.verif_digest(), self.now, self.last_dhcp))
+        fp128(&format!("{:?}|{}|{}|{:?}", self.sockets, self.iface.verif_digest(), self.now, (self.last_dhcp, self.dev.tx_budget)))
     }
     fn outcome(&self) -> String {
         String::new()
@@ -663,7 +729,7 @@ pub fn run(tier: Tier) -> i32 {
     }
     let d = if tier == Tier::Quick { 5 } else { 7 };
     for cfg in p2_configs() {
-        let d = if cfg.served { d + 2 } else if cfg.more { d.min(6) } else { d };
+        let d = if cfg.served { d + 2 } else if cfg.dnsq { d + 1 } else if cfg.more { d.min(6) } else { d };
         let mut samples = vec![];
         let mut found = vec![];
         let t0 = std::time::Instant::now();
